@@ -255,11 +255,11 @@ func (o OneOfSchema[KeyType]) validateSchema(otherSchema OneOfSchema[KeyType]) e
 	return nil
 }
 
-func (o OneOfSchema[KeyType]) validateMap(data map[string]any) (KeyType, Object, error) {
+// selectMember finds the member that the discriminator of a map-shaped value selects. It only looks at the
+// discriminator: whether the member accepts the rest of the value is decided by the member's own Validate / Serialize.
+func (o OneOfSchema[KeyType]) selectMember(data map[string]any) (KeyType, Object, error) {
 	var nilKey KeyType
 	// Validate that it has the discriminator field.
-	// If it doesn't, fail
-	// If it does, pass the non-discriminator fields into the ValidateCompatibility method for the object
 	selectedTypeID := data[o.DiscriminatorFieldNameValue]
 	if selectedTypeID == nil {
 		return nilKey, nil, &ConstraintError{
@@ -285,8 +285,19 @@ func (o OneOfSchema[KeyType]) validateMap(data map[string]any) (KeyType, Object,
 				selectedTypeIDAsserted, o.getTypeValues()),
 		}
 	}
+	return selectedTypeIDAsserted, selectedSchema, nil
+}
+
+// validateMap is the data-mode compatibility check: the member the discriminator selects must be compatible with
+// the non-discriminator fields.
+func (o OneOfSchema[KeyType]) validateMap(data map[string]any) (KeyType, Object, error) {
+	var nilKey KeyType
+	selectedTypeIDAsserted, selectedSchema, err := o.selectMember(data)
+	if err != nil {
+		return nilKey, nil, err
+	}
 	cloneData := o.deleteDiscriminator(data)
-	err := selectedSchema.ValidateCompatibility(cloneData)
+	err = selectedSchema.ValidateCompatibility(cloneData)
 	if err != nil {
 		return nilKey, nil, &ConstraintError{
 			Message: fmt.Sprintf(
@@ -387,7 +398,8 @@ func (o OneOfSchema[KeyType]) findUnderlyingType(data any) (KeyType, Object, err
 				Message: fmt.Sprintf("Invalid type for one-of type: '%T', expected a map with string keys.", data),
 			}
 		}
-		myKey, mySchemaObj, err := o.validateMap(dataMap)
+		// Only select the member here: Validate and Serialize hand the value to the member afterwards.
+		myKey, mySchemaObj, err := o.selectMember(dataMap)
 		if err != nil {
 			return nilKey, nil, err
 		}
